@@ -5,6 +5,7 @@ use core::fmt;
 use core::sync::atomic::Ordering::*;
 use core::sync::atomic::*;
 
+#[cfg_attr(feature = "verif", allow(unused_imports))]
 use log::trace;
 
 /// Atomic wrapper for types that can be converted into atomics
@@ -17,21 +18,25 @@ impl<T: Atomic> Atom<T> {
     pub fn new(v: T) -> Self {
         Self(T::I::new(v.into()))
     }
+    #[cfg(not(feature = "verif"))]
     #[cfg_attr(feature = "log_trace", track_caller)]
     pub fn load(&self) -> T {
         trace!("{} load", core::panic::Location::caller());
         self.0.load().into()
     }
+    #[cfg(not(feature = "verif"))]
     #[cfg_attr(feature = "log_trace", track_caller)]
     pub fn store(&self, v: T) {
         trace!("{} store", core::panic::Location::caller());
         self.0.store(v.into());
     }
+    #[cfg(not(feature = "verif"))]
     #[cfg_attr(feature = "log_trace", track_caller)]
     pub fn swap(&self, v: T) -> T {
         trace!("{} swap", core::panic::Location::caller());
         self.0.swap(v.into()).into()
     }
+    #[cfg(not(feature = "verif"))]
     #[cfg_attr(feature = "log_trace", track_caller)]
     pub fn compare_exchange(&self, current: T, new: T) -> Result<T, T> {
         trace!("{} cmpxchg", core::panic::Location::caller());
@@ -40,6 +45,7 @@ impl<T: Atomic> Atom<T> {
             Err(v) => Err(v.into()),
         }
     }
+    #[cfg(not(feature = "verif"))]
     #[cfg_attr(feature = "log_trace", track_caller)]
     pub fn compare_exchange_weak(&self, current: T, new: T) -> Result<T, T> {
         trace!("{} cmpxchgw", core::panic::Location::caller());
@@ -48,6 +54,7 @@ impl<T: Atomic> Atom<T> {
             Err(v) => Err(v.into()),
         }
     }
+    #[cfg(not(feature = "verif"))]
     #[cfg_attr(feature = "log_trace", track_caller)]
     pub fn try_update<F: FnMut(T) -> Option<T>>(&self, mut f: F) -> Result<T, T> {
         trace!("{} update", core::panic::Location::caller());
@@ -56,10 +63,82 @@ impl<T: Atomic> Atom<T> {
             Err(v) => Err(v.into()),
         }
     }
+    #[cfg(not(feature = "verif"))]
     #[cfg_attr(feature = "log_trace", track_caller)]
     pub fn update<F: FnMut(T) -> T>(&self, mut f: F) -> T {
         trace!("{} update", core::panic::Location::caller());
         self.0.update(|v| f(v.into()).into()).into()
+    }
+}
+
+/// Hooked variants of the accessors (verification builds only): every shared
+/// access reports to [`crate::verif`] before (scheduling point) and after
+/// (recording point) it happens. `try_update`/`update` are the same
+/// load + compare-exchange loop the standard library uses.
+#[cfg(feature = "verif")]
+impl<T: Atomic> Atom<T> {
+    fn verif_addr(&self) -> (usize, usize) {
+        (self as *const Self as usize, core::mem::size_of::<T::I>())
+    }
+    pub fn load(&self) -> T {
+        let (a, s) = self.verif_addr();
+        crate::verif::before(crate::verif::LOAD, a, s);
+        let v = self.0.load();
+        crate::verif::after(crate::verif::LOAD, a, s, T::I::bits(v), T::I::bits(v), true);
+        v.into()
+    }
+    pub fn store(&self, v: T) {
+        let (a, s) = self.verif_addr();
+        crate::verif::before(crate::verif::STORE, a, s);
+        let v: <T::I as AtomicImpl>::V = v.into();
+        self.0.store(v);
+        crate::verif::after(crate::verif::STORE, a, s, 0, T::I::bits(v), true);
+    }
+    pub fn swap(&self, v: T) -> T {
+        let (a, s) = self.verif_addr();
+        crate::verif::before(crate::verif::SWAP, a, s);
+        let v: <T::I as AtomicImpl>::V = v.into();
+        let old = self.0.swap(v);
+        crate::verif::after(crate::verif::SWAP, a, s, T::I::bits(old), T::I::bits(v), true);
+        old.into()
+    }
+    pub fn compare_exchange(&self, current: T, new: T) -> Result<T, T> {
+        let (a, s) = self.verif_addr();
+        crate::verif::before(crate::verif::CAS, a, s);
+        let new: <T::I as AtomicImpl>::V = new.into();
+        match self.0.compare_exchange(current.into(), new) {
+            Ok(v) => {
+                crate::verif::after(crate::verif::CAS, a, s, T::I::bits(v), T::I::bits(new), true);
+                Ok(v.into())
+            }
+            Err(v) => {
+                crate::verif::after(crate::verif::CAS, a, s, T::I::bits(v), T::I::bits(new), false);
+                Err(v.into())
+            }
+        }
+    }
+    pub fn compare_exchange_weak(&self, current: T, new: T) -> Result<T, T> {
+        // strong variant: spurious failures would make hooked runs non-deterministic
+        self.compare_exchange(current, new)
+    }
+    pub fn try_update<F: FnMut(T) -> Option<T>>(&self, mut f: F) -> Result<T, T> {
+        let mut prev = self.load();
+        while let Some(next) = f(prev) {
+            match self.compare_exchange(prev, next) {
+                Ok(v) => return Ok(v),
+                Err(v) => prev = v,
+            }
+        }
+        Err(prev)
+    }
+    pub fn update<F: FnMut(T) -> T>(&self, mut f: F) -> T {
+        let mut prev = self.load();
+        loop {
+            match self.compare_exchange(prev, f(prev)) {
+                Ok(v) => return v,
+                Err(v) => prev = v,
+            }
+        }
     }
 }
 impl<T: Atomic + Default> Default for Atom<T> {
@@ -108,6 +187,10 @@ pub trait AtomicImpl: Sized {
     fn fetch_or(&self, v: Self::V) -> Self::V;
     fn fetch_xor(&self, v: Self::V) -> Self::V;
     fn fetch_nand(&self, v: Self::V) -> Self::V;
+
+    /// Raw value widened to 64 bit (verification hooks only)
+    #[cfg(feature = "verif")]
+    fn bits(v: Self::V) -> u64;
 }
 
 macro_rules! atomic_trivial {
@@ -169,6 +252,11 @@ macro_rules! atomic_impl {
             atomic_trivial![
                 swap, fetch_min, fetch_max, fetch_add, fetch_sub, fetch_and, fetch_or, fetch_xor, fetch_nand
             ];
+
+            #[cfg(feature = "verif")]
+            fn bits(v: Self::V) -> u64 {
+                v as u64
+            }
         }
 
         impl Atom<$ty> {
